@@ -65,7 +65,7 @@ func main() {
 	}
 	w := bufio.NewWriterSize(tf, 1<<20)
 	rep := &Report{Suite: *suite, Seed: *seed, Tier: *tier, Ops: map[string]int{}, Branches: map[string]int{}, seen: map[string]bool{}}
-	ctx := &Ctx{rng: rand.New(rand.NewSource(*seed)), tier: *tier, seed: *seed, trace: w, rep: rep, mr: mr}
+	ctx := &Ctx{rng: rand.New(rand.NewSource(*seed)), tier: *tier, seed: *seed, trace: w, rep: rep, mr: mr, pendingPath: *reportPath + ".pending"}
 	res := safely(func() { f(ctx) })
 	if res.panicked {
 		rep.Failures = append(rep.Failures, Failure{[]string{"*"}, "harness", "harness-panic", "suite panicked: " + res.panicVal, nil})
